@@ -12,7 +12,7 @@ from proof_generation.k.execution_proof_generation import ExecutionProofExp     
 from proof_generation.k.kore_convertion.rewrite_steps import RewriteStepExpression    # noqa: E402
 import proof_generation.proofs.kore as kl                                    # noqa: E402
 
-EXC = (AssertionError, ValueError, IndexError, KeyError, TypeError, NotImplementedError, AttributeError)
+EXC = (Exception,)
 
 
 def ksort(s):
